@@ -127,6 +127,9 @@ def prov_open_bonds(repo, tier="quick"):
         # the call site of find_open_bonds lies inside the growth loop and works on the molecule being grown
         site = a1[1]
         in_loop = any(n.id in cfg.loops.get(loops[0].id, set()) and n.lineno == site[0] for n in cfg.nodes)
+        # written as an argument of the growth call itself: evaluated where that call is, i.e. in the loop
+        if not in_loop and any(isinstance(x, ast.Call) and (x.lineno, x.col_offset) == tuple(site) for x in ast.walk(gcall) if x is not gcall):
+            in_loop = gnode in cfg.loops.get(loops[0].id, set())
         same_mol = c[0] and c[0][0] == a0 and not c[0][1:] and not c[1]
         ok = in_loop and same_mol
         if not in_loop:
